@@ -269,6 +269,54 @@ def canon_grid() -> list[tuple[str, int]]:
     return out
 
 
+def abi_text(rng) -> str:
+    sregs = rng.sample(["s0", "s1", "s2", "s3", "s5", "s7", "s10", "s11"], rng.randint(1, 4))
+    vals = [("%x", "!riscv.reg"), ("%y", "!riscv.reg")]
+    lines = []
+    live_s: dict[str, str] = {}
+    for k in range(1, rng.randint(3, 8)):
+        # an s-register holds one live value at a time here (valid pre-assignment): reuse only after the previous holder's last use
+        use_s = rng.random() < 0.55
+        rd = "!riscv.reg"
+        if use_s:
+            free = [r for r in sregs if r not in live_s]
+            if free:
+                reg = rng.choice(free)
+                rd = f"!riscv.reg<{reg}>"
+                live_s[reg] = f"%v{k}"
+        if rng.random() < 0.25:
+            lines.append(f"    %v{k} = rv32.li {rng.choice(CONSTS)} : {rd}")
+        else:
+            a, b = rng.choice(vals), rng.choice(vals)
+            op = rng.choice(["add", "sub", "mul", "xor", "and", "or"])
+            lines.append(f"    %v{k} = riscv.{op} {a[0]}, {b[0]} : ({a[1]}, {b[1]}) -> {rd}")
+        vals.append((f"%v{k}", rd))
+    # fold everything into the result so that all values stay live to the end
+    acc = vals[-1]
+    n = len(vals)
+    for v in vals[2:-1]:
+        n += 1
+        lines.append(f"    %v{n} = riscv.add {acc[0]}, {v[0]} : ({acc[1]}, {v[1]}) -> !riscv.reg")
+        acc = (f"%v{n}", "!riscv.reg")
+    return ("riscv_func.func @main(%x0 : !riscv.reg<a0>, %y0 : !riscv.reg<a1>) -> !riscv.reg<a0> {\n"
+            "    %x = riscv.mv %x0 : (!riscv.reg<a0>) -> !riscv.reg\n    %y = riscv.mv %y0 : (!riscv.reg<a1>) -> !riscv.reg\n"
+            + "\n".join(lines) + f"\n    %r = riscv.mv {acc[0]} : ({acc[1]}) -> !riscv.reg<a0>\n    riscv_func.return %r : !riscv.reg<a0>\n}}\n")
+
+
+def asm_of_riscv_abi(text: str, prologue: bool) -> str:
+    from xdsl.dialects.riscv import riscv_code
+    from xdsl.parser import Parser
+    from xdsl.transforms import get_all_passes
+
+    c = full_ctx()
+    m = Parser(c, text).parse_module()
+    m.verify()
+    allp = get_all_passes()
+    for p in ("riscv-allocate-registers", "riscv-lower-parallel-mov") + (("riscv-prologue-epilogue-insertion",) if prologue else ()):
+        allp[p]()().apply(c, m)
+    return riscv_code(m)
+
+
 def asm_of_riscv(text: str, canonicalize: bool) -> str:
     from xdsl.dialects.riscv import riscv_code
     from xdsl.parser import Parser
@@ -358,7 +406,34 @@ def run(ctx: Ctx):
         regs0 = {r: limbs32(0x51000000 + 77 * i) for i, r in enumerate(CALLEE)}
         cases.append({"kind": "canon", "A": {"funcs": []}, "codeA": codeA, "code": codeB, "nargs": nargs, "nres": 1, "inputs": inputs, "regs0": regs0})
         metas.append({"kind": "canon", "text": text, "asm": after, "asm_before": before, "cmpi_preds": [], "uses_minmax_or_rounding_div": False})
-    ctx.log(f"{n_compile} compiled programs, {len(cases) - n_compile} canonicalization snippets; {stats}")
+    # (3) prologue / epilogue: riscv-level functions that write callee-saved registers
+    n_before_abi = len(cases)
+    arng = ctx.rng("abi")
+    for k in range(120 if q else 2500):
+        text = abi_text(arng)
+        try:
+            with time_limit(30.0):
+                before = asm_of_riscv_abi(text, False)
+                after = asm_of_riscv_abi(text, True)
+            codeA, codeB = parse_asm(before), parse_asm(after)
+        except Hang:
+            ctx.diverge("prologue/epilogue pipeline did not return within 30 s", program=text)
+            continue
+        except AsmUnsupported as e:
+            stats["asm_unsupported"] += 1
+            ctx.diverge("emitted assembly not expressible in RV.tla", reason=str(e))
+            continue
+        except Exception as e:  # noqa: BLE001
+            key = f"abi: {type(e).__name__}: {str(e)[:60]}"
+            raised_kinds[key] = raised_kinds.get(key, 0) + 1
+            continue
+        vals = [0, 1, 0xFFFFFFFF, 0x80000000, 0x7FFFFFFF, 5]
+        inputs = [[limbs32(arng.choice(vals)), limbs32(arng.choice(vals))] for _ in range(3)] + [[limbs32(arng.randrange(1 << 32)), limbs32(arng.randrange(1 << 32))]]
+        regs0 = {r: limbs32(0x51000000 + 77 * i) for i, r in enumerate(CALLEE)}
+        cases.append({"kind": "abi", "A": {"funcs": []}, "codeA": codeA, "code": codeB, "nargs": 2, "nres": 1, "inputs": inputs, "regs0": regs0})
+        metas.append({"kind": "abi", "text": text, "asm": after, "asm_before": before, "cmpi_preds": [], "uses_minmax_or_rounding_div": False})
+    n_abi = len(cases) - n_before_abi
+    ctx.log(f"{n_compile} compiled programs, {n_before_abi - n_compile} canonicalization snippets, {n_abi} prologue/epilogue functions; {stats}")
     ctx.coverage["pipeline_or_canonicalize_raised_kinds"] = dict(sorted(raised_kinds.items(), key=lambda x: -x[1])[:12])
     res = casecheck.run_cases("riscv/RVCases.tla", cases, min_per_shard=4, timeout=3300, count_ends=lambda c: len(c["inputs"]))
     st: dict[str, int] = {}
@@ -372,7 +447,9 @@ def run(ctx: Ctx):
         seen.add((idx, clause))
         m = metas[idx]
         inp = [serialize.from_limbs(l) for l in cases[idx]["inputs"][j - 1]]
-        if m["kind"] == "compile":
+        if m["kind"] == "abi":
+            what = f"riscv-prologue-epilogue-insertion on a0/a1 = {inp}: {clause}\n--- function\n{m['text']}\n--- assembly before\n{m['asm_before']}\n--- after\n{m['asm']}"
+        elif m["kind"] == "compile":
             what = f"RISC-V pipeline output differs from the source on input {inp}: {clause}\n--- source\n{m['text']}\n--- assembly\n{m['asm']}"
         else:
             what = f"riscv canonicalize changes the code's result on a0/a1 = {inp}: {clause}\n--- snippet\n{m['text']}\n--- assembly before\n{m['asm_before']}\n--- after\n{m['asm']}"
@@ -380,8 +457,12 @@ def run(ctx: Ctx):
         ctx.violate(what, {"clause": clause.split(":")[0], "kind": m["kind"], "input": inp, "program": m["text"], "asm": m["asm"],
                            "uses_mislowered_cmpi_predicate": bool(bad_preds), "cmpi_preds": m["cmpi_preds"],
                            "uses_minmax_or_rounding_div": m["uses_minmax_or_rounding_div"]}, clause=clause.split(":")[0])
+    ctx.coverage["compiled_programs_using_callee_saved_registers"] = sum(1 for m in metas if m["kind"] == "compile" and re.search(r"\bs(\d|1[01])\b", m["asm"]))
+    ctx.coverage["compiled_programs_with_stack_frame"] = sum(1 for m in metas if m["kind"] == "compile" and re.search(r"\b(sw|lw)\b", m["asm"]))
+    ctx.coverage["compiled_programs_with_loops"] = sum(1 for m in metas if m["kind"] == "compile" and re.search(r"\bb(lt|ge|ne|eq)\b", m["asm"]))
     ctx.coverage.update({"evaluations": sum(len(c["inputs"]) for c in cases), "distinct_nontrivial": len(cases), "compiled_programs": n_compile,
-                         "canonicalization_snippets": len(cases) - n_compile, "outcomes": stats, "run_status_source/target": st, "machine_states": res.states,
+                         "canonicalization_snippets": n_before_abi - n_compile, "prologue_epilogue_functions": n_abi,
+                         "prologue_epilogue_functions_with_stack_frame": sum(1 for m in metas if m["kind"] == "abi" and re.search(r"\bsw\b", m["asm"])), "outcomes": stats, "run_status_source/target": st, "machine_states": res.states,
                          "rule": "generated i32 programs (1-4 arguments; arith incl. division/shift/min/max with boundary constants, all ten cmpi predicates feeding scf.if, scf.for with "
                                  "iter_args; a quarter with >= 10 simultaneously live values) through the documented pipeline; generated riscv snippets (li with 12-/32-bit boundary constants, "
                                  "R- and I-type ops) before/after canonicalize; inputs: boundary and random 32-bit tuples"})
